@@ -25,7 +25,8 @@ def r1(ctx: Ctx) -> None:
         for p in normal_paths(ctx.paths(q)):
             n += 1
             t = _default_time(p)
-            other = [key(strip_ver(c)) for c, pol, _ in p.conds if key(strip_ver(c)) != "(time is None)"]
+            # a test that the index has components at all (the empty case raises either way) is no decision about the time
+            other = [key(strip_ver(c)) for c, pol, _ in p.conds if key(strip_ver(c)) != "(time is None)" and not (key(strip_ver(c)) in ("self._components", "(0 == len(self._components))", "(0 < len(self._components))") )]
             ctx.check(t is not None and not other, f, f.node, "the current time is substituted only when no time is given", "if time is None: time = self.get_time()", f"decisions: {[('' if pol else 'not ') + key(strip_ver(c)) for c, pol, _ in p.conds]}")
             if t is None:
                 continue
@@ -59,12 +60,19 @@ def r1(ctx: Ctx) -> None:
             el = ("sym", f"{l.target[0]}∈{l.loopid}")
             w = ("attr", el, "outstanding_shares") if not paired else ("sym", f"{l.target[1]}∈{l.loopid}")
             accs = {}
+            refused = False
             for bp in l.paths:
+                if bp.conds and bp.exit[0] == "fall" and all(any(x[0] == "attr" and x[1] == el and x[2].startswith("_") for x in subterms(strip_ver(c))) for c, _, _ in bp.conds):
+                    ctx.unrec(f, l.node, "every component contributes", "the pass branches on the component's own recorded state (the price getter was folded in with a case distinction): not modelled", bp.describe()[:100])
+                    refused = True
+                    continue
                 ctx.check(not bp.conds and bp.exit[0] == "fall", f, l.node, "every component contributes", "no condition inside the loop", bp.describe()[:100])
                 for name, ph in l.phi.items():
                     v = bp.env.get(name)
                     if v is not None and v != ph:
                         accs[name] = (ph, strip_ver(v))
+            if refused:
+                continue
             num = den = None
             for name, (ph, v) in accs.items():
                 if v[0] == "bin" and v[1] == "+" and v[2] == ph:
